@@ -201,6 +201,7 @@ class Obj:
     def __init__(self, T, cls, ctor, params, via_get):
         import numpy as np
         self.cls, self.ctor = cls, dict(ctor)
+        self.via_get = via_get
         self.requested = dict(params)
         setp = {k: v for k, v in params.items() if v is not None}
         if via_get:
@@ -218,6 +219,7 @@ class Obj:
     def setp(self, **kw):
         for k, v in kw.items():
             setattr(self.t, k, v)
+            self.requested[k] = v
 
     def P(self):
         """actual (clipped) values held by the object"""
@@ -342,7 +344,18 @@ def x_inputs(cls, P, rng, n):
                 ws.append(10 ** rng.uniform(-9, hp))
             else:
                 ws.append(-10 ** rng.uniform(-9, hn))
-        return [(w - nu) / sc for w in ws]
+        xs_ = [(w - nu) / sc for w in ws]
+        # an input that lands exactly on the branch switch w == EPS, when one exists near (EPS - nu)/scale
+        x0 = (EPS - nu) / sc
+        cand = [x0]
+        for _ in range(4):
+            cand += [math.nextafter(cand[-1], INF)]
+        c2 = x0
+        for _ in range(4):
+            c2 = math.nextafter(c2, -INF)
+            cand.append(c2)
+        hit = [c for c in cand if nu + c * sc == EPS]
+        return xs_ + (hit[:1] or [x0])
     if cls == "LogSinh":
         a, b, xm = math.exp(P["loga"]), math.exp(P["logb"]), P["xmax"]
         if xm != xm:
@@ -352,7 +365,18 @@ def x_inputs(cls, P, rng, n):
         while len(xns) < n:
             w = 10 ** rng.uniform(-6, 3)
             xns.append((w - a) / b)
-        return [v * xm for v in xns]
+        xs_ = [v * xm for v in xns]
+        # inputs exactly on the guard xn == -a/b + EPS (rejected) and one step inside
+        x0 = edge * xm
+        cand = [x0]
+        for d in (INF, -INF):
+            c = x0
+            for _ in range(3):
+                c = math.nextafter(c, d)
+                cand.append(c)
+        on = [c for c in cand if c / xm == edge]
+        ins = sorted(c for c in cand if c / xm > edge)
+        return xs_ + on[:1] + ins[:1]
     if cls == "Sinh":
         nu, sc = P["nu"], P["scale"]
         us = [0.0, 1e-300, NAN, 1.0, -1.0]
@@ -598,6 +622,76 @@ def region_y(cls, P, y, x):
     raise KeyError(cls)
 
 
+
+# ------------------------------------------------------------------------------------------------------
+# exact domain / image membership (no conditioning): elements outside the domain of a formula that has no
+# explicit np.where guard hold whatever the arithmetic produced (NaN, or a number when the power has an
+# integer exponent ...); the property does not constrain them, so they are not compared.
+GUARDED = {("LogSinh", "fwd"), ("LogSinh", "jac"), ("Reciprocal", "fwd"), ("Reciprocal", "bwd"), ("Reciprocal", "jac"),
+           ("Logit", "jac"), ("Log", "jac"), ("BoxCox2", "jac"), ("BoxCox1lam", "jac"), ("BoxCox1nu", "jac"),
+           ("BoxCox2sym", "jac")}
+
+
+def in_domain(cls, op, P, v):
+    """True when `v` is inside the domain (fwd/jac) or the image (bwd) of the transform, or the op is guarded"""
+    if (cls, op) in GUARDED or v != v:
+        return True
+    if op == "cens":
+        return None          # composite: judged by NaN agreement only when both sides are numbers
+    if cls in ("Identity", "Sinh", "LogSinh"):
+        return True
+    if cls == "Logit":
+        return op == "bwd" or P["lower"] < v < P["lower"] + math.exp(P["logdelta"])
+    if cls == "Log":
+        return op == "bwd" or v + P["nu"] > 0
+    if cls in ("BoxCox2", "BoxCox1lam", "BoxCox1nu", "BoxCox2sym"):
+        nu, lam = P["nu"], P["lam"]
+        if nu != nu or lam != lam:
+            return True
+        if op != "bwd":
+            return (abs(v) if cls == "BoxCox2sym" else v) + nu > 0 and (cls != "BoxCox2sym" or nu > 0)
+        if abs(lam) <= EPS:
+            return cls != "BoxCox2sym" or nu > 0
+        u = v
+        if cls == "BoxCox2sym":
+            if not nu > 0:
+                return False
+            u = abs(v) + (spow(nu, lam) - 1) / lam
+        return lam * u + 1 > 0
+    if cls == "YeoJohnson":
+        if op != "bwd":
+            return True
+        lam = P["lam"]
+        if v >= EPS:
+            return abs(lam) <= 1e-8 or lam * v + 1 > 0
+        return abs(lam - 2) <= 1e-8 + 2e-5 or -(2 - lam) * v + 1 > 0
+    if cls == "Manly":
+        if op != "bwd" or abs(P["lam"]) <= EPS:
+            return True
+        return 1 + P["lam"] * v > 0
+    if cls == "Reciprocal":
+        return True
+    return True
+
+
+def param_branch(cls, P):
+    """which formula the parameter vector selects (evidence histogram)"""
+    lam = P.get("lam")
+    if cls in ("BoxCox2", "BoxCox1lam", "BoxCox1nu", "BoxCox2sym"):
+        if lam != lam or P["nu"] != P["nu"]:
+            return "unset"
+        return "power" if abs(lam) > EPS else "log"
+    if cls == "Manly":
+        return "unset" if P["xmax"] != P["xmax"] else ("exp" if abs(lam) > EPS else "identity")
+    if cls == "YeoJohnson":
+        return "lam~0" if abs(lam) <= 1e-8 else ("lam~2" if abs(lam - 2) <= 1e-8 + 2e-5 else "generic")
+    if cls == "Log":
+        return "ln" if P["base"] is None else "base"
+    if cls == "LogSinh":
+        return "unset" if P["xmax"] != P["xmax"] else "set"
+    return ""
+
+
 # ------------------------------------------------------------------------------------------------------
 def body(ctx):
     import numpy as np
@@ -605,7 +699,7 @@ def body(ctx):
     from hydrodiy.stat import transform as T
     rng = ctx.rng
     reqs, checks = [], []      # checks[i] = (impl status, impl payload, case dict, expected model state or None)
-    stats = {"unconstrained": 0, "elements": 0}
+    stats = {"unconstrained": 0, "elements": 0, "outside_domain_not_compared": 0}
 
     def submit(o, op, arr, censor=None, note=""):
         """run one call on the real object, queue the same call for the model; returns the impl result"""
@@ -615,6 +709,10 @@ def body(ctx):
         o.after_call(status)
         case = {"class": o.cls, "ctor": o.ctor, "params": o.P(), "op": op, "inputs": [float(v) for v in arr],
                 "censor": censor, "note": note}
+        if status == "err" and all(v is not None for v in o.requested.values()):
+            ctx.finding(f"{o.cls}/{op}/raises_on_valid_setting",
+                        "a call on a transform whose parameters and constants were all set raises " + str(payload),
+                        {"class": o.cls, "ctor": o.ctor, "requested": o.requested, "via_get_transform": o.via_get, "error": payload})
         reqs.append(line)
         checks.append((status, payload, case, list(o.bc) if o.cls in STATEFUL else None))
         return status, payload
@@ -689,14 +787,23 @@ def body(ctx):
                 exercise(o, 14, note="corpus:" + f.name)
 
     # ---------------- scalar classes
-    ncfg = ctx.scale(34, 120)
-    nin = ctx.scale(40, 60)
+    ncfg = ctx.scale(60, 400)
+    nin = ctx.scale(44, 64)
     scalar_classes = ["Identity", "Logit", "Log", "BoxCox2", "BoxCox1lam", "BoxCox1nu", "BoxCox2sym", "YeoJohnson",
                       "LogSinh", "Reciprocal", "Sinh", "Manly"]
     for cls in scalar_classes:
         cfgs = configs(cls, rng, 1 if cls == "Identity" else ncfg)
         for i, (ctor, params) in enumerate(cfgs):
             o = Obj(T, cls, ctor, params, via_get=(i % 2 == 1))
+            if o.via_get:
+                twin = Obj(T, cls, ctor, params, via_get=False)
+                pa, pb = o.P(), twin.P()
+                if {k: C.f2h(v) if isinstance(v, float) else v for k, v in pa.items()} != \
+                        {k: C.f2h(v) if isinstance(v, float) else v for k, v in pb.items()}:
+                    ctx.finding(f"get_transform/{cls}/differs_from_direct_setting",
+                                "get_transform(name, **kw) does not hold the parameter / constant values that setting the "
+                                "same attributes on a fresh instance gives",
+                                {"class": cls, "ctor": ctor, "requested": params, "get_transform": pa, "direct": pb})
             exercise(o, nin)
             if cls in STATEFUL or (cls in ("LogSinh", "Manly") and i % 5 == 0):
                 # histories: change parameters between calls; the inner BoxCox2 / constants must follow
@@ -719,9 +826,25 @@ def body(ctx):
                         o.setp(xmax=10 ** rng.uniform(-2, 3), lam=rng.choice([0.0, 1e-10, 0.5, -2.0, 1e-3]))
                     exercise(o, max(12, nin // 3), note=f"history step {step + 1}")
 
+
+    # ---------------- dense sweeps of lam through the branch switches
+    nsw = ctx.scale(24, 400)
+    sweeps = []
+    for k in range(nsw):
+        f = 1 + rng.choice([-1, 1]) * 10 ** rng.uniform(-15, -0.3)
+        sg = rng.choice([-1, 1])
+        sweeps.append(("BoxCox2", {"minilam": -3.0}, {"nu": rng.choice([1e-3, 0.1, 1.0, 7.0]), "lam": sg * EPS * f}))
+        sweeps.append(("Manly", {}, {"lam": sg * EPS * f, "xmax": rng.choice([1.0, 3.0, 100.0])}))
+        sweeps.append(("YeoJohnson", {}, {"nu": rng.choice([0.0, 0.4, -2.0]), "scale": rng.choice([1.0, 0.1, 25.0]),
+                                          "lam": sg * 1e-8 * f}))
+        sweeps.append(("YeoJohnson", {}, {"nu": rng.choice([0.0, 0.4, -2.0]), "scale": rng.choice([1.0, 0.1, 25.0]),
+                                          "lam": 2 + sg * (1e-8 + 2e-5) * f}))
+    for k, (cls, ctor, params) in enumerate(sweeps):
+        exercise(Obj(T, cls, ctor, params, via_get=(k % 2 == 0)), 14, note="lam sweep")
+
     # ---------------- Softmax (2-D)
     sm = T.Softmax()
-    nsm = ctx.scale(150, 1500)
+    nsm = ctx.scale(300, 5000)
     for it in range(nsm):
         ncol = rng.randint(1, 7)
         nrow = rng.randint(1, 4)
@@ -829,10 +952,17 @@ def body(ctx):
             ctx.disagree(f"{cls}.{op}: result shapes differ", {"request": case, "impl": len(iv), "model": len(mv)})
             continue
         bad = None
+        pb = param_branch(cls, case["params"]) if "params" in case else ""
+        ins = case.get("inputs")
         for k, (a, m, e) in enumerate(zip(iv, mv, me)):
             stats["elements"] += 1
             nontriv = fin(a)
-            ctx.count((req, k), nontriv, f"{cls}/{op}" + ("" if nontriv else "/nan-or-inf"),
+            dom = in_domain(cls, op, case["params"], ins[k]) if ins is not None else True
+            if dom is False or (dom is None and (a != a) != (m != m)):
+                stats["outside_domain_not_compared"] += 1
+                ctx.count((req, k), False, f"{cls}/{op}/outside-domain")
+                continue
+            ctx.count((req, k), nontriv, f"{cls}/{op}" + (f"/{pb}" if pb else "") + ("" if nontriv else "/nan-or-inf"),
                       sample=({"class": cls, "op": op, "params": case.get("params"), "input": case.get("inputs", [None])[k] if "inputs" in case else None,
                                "impl": a, "model": m, "bound": e} if (k == 3 and nontriv) else None))
             if a != a or m != m:
@@ -863,6 +993,7 @@ def body(ctx):
     ctx.extra["rule"] = __doc__.split("Cases:")[1].strip()
     ctx.extra["oracle_regions"] = REGIONS.strip()
     ctx.extra["unconstrained_elements"] = stats["unconstrained"]
+    ctx.extra["outside_domain_not_compared"] = stats["outside_domain_not_compared"]
     ctx.assumptions += [
         "parameter values are read back from the object after assignment (clipping to bounds is C12's subject)",
         "numpy exp/log/power/sinh/arcsinh/tanh vs libm: compared within 1e-13 relative per call, propagated",
